@@ -163,7 +163,13 @@ def bounded_generated_union_members(tier, seed):
             "backend": "bounded", "bound": f"1 document, 3 unions, {len(payloads)} payloads", "evaluations": n, "distinct_nontrivial": n, "exhaustive": False, "failures": failures}
 
 
-BOUNDED = [bounded_runtime_unions, bounded_emitted_mapping, bounded_generated_union_members]
+def bounded_random_documents(tier, seed):
+    """every union alias of every random corpus document (member names with digits, discriminator mappings): each member's payload decodes and re-encodes"""
+    from props import randrt
+    return randrt.bounded("unions", tier, seed, ignore=lambda p: p["kind"] == "default-materialised")
+
+
+BOUNDED = [bounded_runtime_unions, bounded_emitted_mapping, bounded_generated_union_members, bounded_random_documents]
 
 
 def _w_first_match(k):
